@@ -97,12 +97,38 @@ func genFirstUse(t *rapid.T) Case {
 	cs.Circ = gen.DrawCirc(t, o)
 	cs.KeyLen = rapid.SampledFrom([]int{16, 24, 32}).Draw(t, "keylen")
 	cs.Seed = rapid.Uint64().Draw(t, "seed")
-	cs.Pad = rapid.SampledFrom([]int{20000, 60000, 150000}).Draw(t, "pad")
-	cs.Inputs = []string{gen.BitsOf(gen.DrawBits(t, cs.Circ.NumIn(), "in"))}
+	cs.Pad = rapid.SampledFrom([]int{20000, 60000, 150000, -1, -1}).Draw(t, "pad")
+	if cs.Pad < 0 {
+		// Total wire count on either side of 2^16 (the size at which
+		// the streaming code switches its wire-id encoding and any
+		// "big circuit" special case would plausibly start).
+		base := cs.Circ.NumWires()
+		cs.Pad = 65536 - base + rapid.IntRange(-1, 1).Draw(t, "padboundary")
+	}
+	nin := cs.Circ.NumIn()
+	ones := make([]bool, nin)
+	for i := range ones {
+		ones[i] = true
+	}
+	// Input 0 is drawn, input 1 is all ones, input 2 all zeros: plain
+	// computations that follow each other on the shared circuit differ in
+	// every input bit.
+	cs.Inputs = []string{gen.BitsOf(gen.DrawBits(t, nin, "in")), gen.BitsOf(ones),
+		gen.BitsOf(make([]bool, nin))}
 	g := rapid.IntRange(2, 4).Draw(t, "goroutines")
 	cs.Scripts = make([][]Op, g)
 	for gi := range cs.Scripts {
 		cs.Scripts[gi] = []Op{{K: opGER, Y: rapid.IntRange(0, 3).Draw(t, "yield")}}
+		// Half of the goroutines also compute in the clear, before and
+		// after their garbling.
+		if rapid.Bool().Draw(t, "computes") {
+			pre := Op{K: opCmp, In: rapid.IntRange(0, 2).Draw(t, "input")}
+			cs.Scripts[gi] = append([]Op{pre}, cs.Scripts[gi]...)
+			n := rapid.IntRange(1, 3).Draw(t, "ncomputes")
+			for i := 0; i < n; i++ {
+				cs.Scripts[gi] = append(cs.Scripts[gi], Op{K: opCmp, In: rapid.IntRange(0, 2).Draw(t, "input")})
+			}
+		}
 	}
 	return cs
 }
